@@ -146,7 +146,14 @@ fn worker(args: &[String]) -> i32 {
         *RUNNING.lock().unwrap() = Some((std::time::Instant::now(), json!({"property": prop, "variant": variant, "program": p, "expect": "pass"}).to_string()));
         let h = exec::run_case(&p, &opts);
         *RUNNING.lock().unwrap() = None;
-        let viols = (spec.oracle)(&h);
+        let mut viols = (spec.oracle)(&h);
+        // whatever the property: a collector cycle that panics delivers nothing and takes the
+        // caller of flush() (or the background thread) with it
+        if spec.id != "C07" {
+            for pn in h.panics.iter().filter(|pn| pn.op.starts_with("collector cycle")) {
+                viols.push(Viol { prop: spec.id, sig: "collector-cycle-panicked".into(), msg: format!("{} panicked: {}", pn.op, pn.msg) });
+            }
+        }
         let mut a = acc.borrow_mut();
         if !a.failed {
             let unknown_now = viols.iter().any(|v| !known.iter().any(|k| *k == v.sig));
